@@ -1147,6 +1147,32 @@ pub fn text_disagrees(p: &ProblemData, i: &Interp, pool: &[Val], budget: i64) ->
             return Some(format!("formula {} of problem {} has role {role} in the text", f.name, p.name));
         }
         let tree_f = crate::ir::lower(&f.formula);
+        // the rendering is a transliteration: the comparisons of the text are those of the tree, relation
+        // by relation (a chain of the tree is a conjunction of binary comparisons in the text)
+        fn relations(f: &crate::ir::Fm, out: &mut Vec<u8>) {
+            use crate::ir::Fm;
+            match f {
+                Fm::Cmp(_, guards) => out.extend(guards.iter().map(|g| g.0 as u8)),
+                Fm::Not(g) | Fm::Q(_, _, g) => relations(g, out),
+                Fm::Bin(_, a, b) => {
+                    relations(a, out);
+                    relations(b, out);
+                }
+                _ => {}
+            }
+        }
+        let (mut in_tree, mut in_text) = (vec![], vec![]);
+        relations(&tree_f, &mut in_tree);
+        relations(text_f, &mut in_text);
+        in_tree.sort();
+        in_text.sort();
+        if in_tree != in_text {
+            let line = p.text.lines().find(|l| l.contains(&format!("tff({},", f.name))).unwrap_or("");
+            return Some(format!(
+                "formula {} of problem {}: the relations of the emitted text ({in_text:?}) are not those of the syntax tree ({in_tree:?}; 0 = equal, 1 = not equal, 2 = less, 3 = less or equal, 4 = greater, 5 = greater or equal)\n  tree: {}\n  text: {line}",
+                f.name, p.name, f.formula
+            ));
+        }
         let a = Ev::classical(i, pool, true).with_budget(budget).sat(&tree_f, &mut Env::new(), World::T);
         let b = Ev::classical(i, pool, true).with_budget(budget).sat(text_f, &mut Env::new(), World::T);
         if let (Some(a), Some(b)) = (a, b) {
